@@ -50,12 +50,12 @@ func encBytes(en *env.Enc, b []byte) {
 // ---- (A) Sifchain burn / lock event -> message for Ethereum ----
 
 type c16MsgCase struct {
-	Burn   bool
-	Attrs  []c16Attr
-	OK     bool
-	Err    string
-	Out    rtypes.CosmosMsg
-	Panic  string
+	Burn  bool
+	Attrs []c16Attr
+	OK    bool
+	Err   string
+	Out   rtypes.CosmosMsg
+	Panic string
 }
 
 func runBurnLock(tr *txs.VerifSymbolTranslator, burn bool, attrs []c16Attr) (cs c16MsgCase) {
@@ -318,7 +318,9 @@ func monEthEvent(rep *report.Report, cs c16EvCase) {
 		return
 	}
 	ev, c := cs.Ev, cs.Out
-	bad := func(f string) { rep.Violate("C16/claim-field-mistranslated/"+f, "the claim's "+f+" differs from the event's", cs.desc()) }
+	bad := func(f string) {
+		rep.Violate("C16/claim-field-mistranslated/"+f, "the claim's "+f+" differs from the event's", cs.desc())
+	}
 	// the property quantifies over chain ids and nonces up to 2^63-1 (the claim's fields are int64)
 	if !ev.EthereumChainID.IsInt64() || !ev.Nonce.IsInt64() {
 		return
